@@ -91,7 +91,7 @@ def floors(tier):
     if tier == 'quick':
         return {'reader_checked': 2400, 'perm_checked': 550, 'superset_checked': 1800, 'cast_cells_checked': 12000,
                 'missing_checked': 2500, 'dupes_checked': 250, 'driver_checked': 3500, 'slicer_checked': 1200,
-                'take_checked': 15000, 'view_checked': 26000, 'view_items_checked': 2500}
+                'take_checked': 6000, 'view_checked': 9000, 'view_items_checked': 1400}
     return {'reader_checked': 70000, 'perm_checked': 6000, 'superset_checked': 62000, 'cast_cells_checked': 450000,
             'missing_checked': 21000, 'dupes_checked': 2200, 'driver_checked': 65000, 'slicer_checked': 29000,
             'take_checked': 75000, 'view_checked': 90000, 'view_items_checked': 18000}
@@ -697,19 +697,21 @@ def run(ctx):
         check_slicer(ctx, lib, {
             'kind': 'slicer', 'rows': gen_matrix(rng, nrows, ncols), 'impl': rng.choice(CONSTRUCTIONS),
             'features': [rng.randrange(ncols) for _ in range(rng.randint(1, 4))], 'labels': labels})
-    # -------- tabular: all index lists up to length 4 on both axes
+    # -------- tabular: all index lists up to length 4 on both axes, for every extent 1-4 x construction; thorough
+    # crosses every extent with every extent of the other axis, quick with one (rotating) extent of the other axis
     index = 0
-    top = ctx.pick(4, 4)
-    for nrows, ncols, impl in itertools.product(range(1, top + 1), range(1, top + 1), CONSTRUCTIONS):
-        index += 1
-        if not ctx.mine(index):
-            continue
-        mrng = ctx.rng('matrix', nrows, ncols, impl)
-        rows = gen_matrix(mrng, nrows, ncols)
-        check_tabular(ctx, lib, {'kind': 'tabular', 'rows': rows, 'impl': impl, 'ops': []})
-        for axis, extent in (('rows', nrows), ('columns', ncols)):
+    for extent, axis, (slot, impl) in itertools.product(range(1, 5), ('rows', 'columns'), enumerate(CONSTRUCTIONS)):
+        others = range(1, 5) if not ctx.quick else [(extent + slot + (axis == 'rows')) % 4 + 1]
+        for other in others:
+            nrows, ncols = (extent, other) if axis == 'rows' else (other, extent)
+            rows = gen_matrix(ctx.rng('matrix', nrows, ncols, impl), nrows, ncols)
+            index += 1
+            if ctx.mine(index):
+                check_tabular(ctx, lib, {'kind': 'tabular', 'rows': rows, 'impl': impl, 'ops': []})
             for indices in index_lists(extent, 4):
-                check_tabular(ctx, lib, {'kind': 'tabular', 'rows': rows, 'impl': impl, 'ops': [[axis, indices]]})
+                index += 1
+                if ctx.mine(index):
+                    check_tabular(ctx, lib, {'kind': 'tabular', 'rows': rows, 'impl': impl, 'ops': [[axis, indices]]})
     for _ in range(ctx.pick(300, 3000)):
         nrows, ncols = rng.randint(1, ctx.pick(4, 6)), rng.randint(1, ctx.pick(4, 6))
         ops = []
